@@ -125,37 +125,22 @@ VisPrefix(r, q) == IF q = <<>> \/ ~Visible(r, q[1].id) THEN <<>> ELSE <<q[1]>> \
 
 \* Reading positioned by Seek.  populateWithDelSeriesIterator.Seek on a fresh series iterator first calls
 \* Next (first sample a chunk iterator yields), then Seek on the current chunk iterator, moving to the next
-\* chunk while that returns nothing.  stopIterator (head_read.go) overrides Next only: its Seek is the
-\* embedded chunk iterator's and walks the whole chunk, past stopAfter; afterwards Next still counts from
-\* i = 0, so up to stopAfter-1 further samples follow.  This is transcribed as it is (named deviation
-\* KF-C05-2); SeekRef is what the property demands.
+\* chunk while that returns nothing.  stopIterator.Seek (head_read.go) steps through its own Next, so a
+\* positioned read never goes past stopAfter either.  (Until the fix of KF-C05-2 Seek was the embedded
+\* chunk iterator's and walked the whole chunk: a dirty read.  SeekConsistent / SeekNoDirty fail again
+\* in the replay if that comes back.)  SeekRef is what the property demands.
 MinOf(a, b) == IF a <= b THEN a ELSE b
 RECURSIVE SeekFrom(_, _, _, _)
 SeekFrom(r, sr, c, t) ==
   IF c > Len(sr.chunks) THEN <<>>
-  ELSE LET stop == StopOf(r, sr, c)
-           q    == SubSeq(sr.samples, PrevOf(sr, c) + 1, PrevOf(sr, c) + sr.chunks[c])
-           num  == Len(q)
-           hits == {j \in 1..num : q[j].t >= t}
-       IN IF stop = 0 \/ hits = {} THEN SeekFrom(r, sr, c + 1, t)
-          ELSE LET j    == Min(hits)
-                   more == IF stop = num THEN num - j ELSE MinOf(stop - 1, num - j)
-               IN SubSeq(q, j, j + more) \o ViewFrom(r, sr, c + 1)
+  ELSE LET q    == ChunkView(r, sr, c)          \* what this chunk's iterator can yield at all
+           hits == {j \in 1..Len(q) : q[j].t >= t}
+       IN IF hits = {} THEN SeekFrom(r, sr, c + 1, t)
+          ELSE SubSeq(q, Min(hits), Len(q)) \o ViewFrom(r, sr, c + 1)
 SeekView(r, s, t) == SeekFrom(r, ser[s], 1, t)
 From(q, t) == SelectSeq(q, LAMBDA x : x.t >= t)
 SeekRef(r, s, t) == From(Ref(r, s), t)
 Times == UNION {{Tx[a][i].t : i \in 1..Len(Tx[a])} : a \in Apps}
-
-\* KF-C05-2 signature: the first sample at or after t is hidden from r but lies in the same chunk as r's
-\* last visible sample (so that chunk is read through a stopIterator)
-RECURSIVE ChunkOfIdx(_, _, _)
-ChunkOfIdx(chs, i, c) == IF i <= chs[1] THEN c ELSE ChunkOfIdx(Tail(chs), i - chs[1], c + 1)
-SeekPastStop(r, s, t) ==
-  LET q == ser[s].samples
-      p == Len(View(r, s))
-      F == {i \in 1..Len(q) : q[i].t >= t}
-  IN /\ F # {} /\ p >= 1 /\ Min(F) > p
-     /\ ChunkOfIdx(ser[s].chunks, Min(F), 1) = ChunkOfIdx(ser[s].chunks, p, 1)
 
 Smp(x) == <<x.a, x.n, x.t>>
 Smps(q) == [i \in 1..Len(q) |-> Smp(q[i])]
@@ -323,16 +308,10 @@ KF_C05_1 == \E r \in OpenReaders : \E s \in Series : HiddenBehindOpen(r, s)
 CompleteKF == \A r \in OpenReaders : \A s \in Series : View(r, s) = Ref(r, s) \/ HiddenBehindOpen(r, s)
 AtomicKF == Atomic \/ KF_C05_1
 
-\* reading through Seek must give the tail of what Next gives, and never a hidden sample
+\* reading through Seek gives the tail of what Next gives, and never a hidden sample
 SeekConsistent == \A r \in OpenReaders : \A s \in Series : \A t \in Times : SeekView(r, s, t) = From(View(r, s), t)
 SeekNoDirty == \A r \in OpenReaders : \A s \in Series : \A t \in Times :
   \A i \in 1..Len(SeekView(r, s, t)) : Visible(r, SeekView(r, s, t)[i].id)
-KF_C05_2(r, s, t) == SeekPastStop(r, s, t)
-SeekConsistentKF == \A r \in OpenReaders : \A s \in Series : \A t \in Times :
-  SeekView(r, s, t) = From(View(r, s), t) \/ KF_C05_2(r, s, t)
-\* and the deviation is exactly that shape: whenever the signature holds the read is dirty
-SeekKFExact == \A r \in OpenReaders : \A s \in Series : \A t \in Times :
-  KF_C05_2(r, s, t) => SeekView(r, s, t) # From(View(r, s), t)
 
 \* snapshot stability: what an open reader sees never changes
 Stable == [][\A r \in Readers : (rd[r].st = "open" /\ rd'[r].st = "open") =>
